@@ -451,6 +451,7 @@ MUTANTS = [
     {"name": "skip-catalyst-jac", "file": T, "old": "            for specidx in pspecidx:\n                for ri in rspecidx:\n                    rsymcopy = rsym.copy()", "new": "            for specidx in pspecidx:\n                if specidx in rspecidx:\n                    continue\n                for ri in rspecidx:\n                    rsymcopy = rsym.copy()", "rules": ["R1"]},
 ]
 BENIGN = [
+    {"name": "modifier-term-by-list-concatenation", "file": T, "old": "term = f\" + {'*'.join([f'({fact})', *depsymcopy])}\"", "new": "term = \" + \" + \"*\".join([f\"({fact})\"] + depsymcopy)"},
     {"name": "csr-rowslice-enumerate-count-by-len", "file": T, "old": '        nnz = 0\n\n        for row in range(n_eqns):\n            spjacrptr.append(nnz)\n            for col in range(n_eqns):\n                elem = jacrhs[row * n_eqns + col]\n                if elem != "0.0":\n                    spjaccval.append(col)\n                    spjacdata.append(f"{elem}")\n                    nnz += 1\n        spjacrptr.append(nnz)\n',
      "new": '        for row in range(n_eqns):\n            spjacrptr.append(len(spjacdata))\n            for col, elem in enumerate(jacrhs[row * n_eqns + 0 : (row + 1) * n_eqns]):\n                if elem == "0.0":\n                    continue\n                spjaccval.append(col)\n                spjacdata.append(elem)\n        nnz = len(spjacdata)\n        spjacrptr.append(nnz)\n'},
     {"name": "arrays-renamed", "edits": [
